@@ -38,7 +38,7 @@ def groups(sc, tier):
     men = mendel_tu(sc)
     gs = []
     common_kw = dict(sources=["src/xraylib-aux.c"], extra=["harness/h_catalog.c", men], backends=("sat",), timeout=1500, no_safety=False,
-                     leak_check=True)
+                     leak_check=True, object_bits=12)
     gs.append(Group("C15.K3.nist_data", "K3", "k3_nist", unwind=185, functions=["compoundDataNISTList[]", "NIST_COMPOUND_* macros"], **common_kw))
     gs.append(Group("C15.K3.nuclide_and_element_data", "K3", "k3_nuclides", unwind=145, functions=["nuclideDataList[]", "MendelArray[]", "RADIO_NUCLIDE_* macros"], **common_kw))
     gs.append(Group("C15.K2.nist_by_index", "K2", "lemma_nist_lookup", unwind=185, functions=["GetCompoundDataNISTByIndex", "FreeCompoundDataNIST"], **common_kw))
